@@ -132,8 +132,7 @@ class MessageDispatcher(object):
         for name in dir(resource):
             attr = getattr(resource, name)
             if inspect.isroutine(attr) and hasattr(attr, "_event"):
-                if attr._event in self.registered_events:
-                    self.unregister_function(attr._event)
+                self.unregister_function(attr._event)
 
     def register_function(self, event_type, fn):
         """ register an event handler for a given type
@@ -159,8 +158,7 @@ class MessageDispatcher(object):
         if isinstance(event_type, type):
             event_type = event_type.__name__
         if event_type in self.registered_events:
-            raise Exception("duplicate function registered for %s" % event_type)
-        del self.registered_events[event_type]
+            del self.registered_events[event_type]
 
     def dispatch(self):
 
